@@ -351,6 +351,20 @@ pub fn run(rec: &mut Rec, rng: &mut Rng, thorough: bool) {
             resp_case(rec, rng, &spec, n <= 10000);
         }
     }
+    // long heads: the Server name and the Allow list are unbounded (any length of status line + headers must go out)
+    rec.case("long-heads");
+    for sl in [40usize, 100, 180, 230, 256, 300, 1000, 5000] {
+        for na in [0usize, 3, 8, 40] {
+            let allow: Vec<u8> = (0..na).map(|k| (k % 3) as u8).collect();
+            let mut ops = vec![BOp::Server("s".repeat(sl).into_bytes()), BOp::Deprecation, BOp::Encoding, BOp::Body(crate::gen::body_bytes(rng, if na % 2 == 0 { 10 } else { 100 }))];
+            if na > 0 {
+                ops.insert(1, BOp::Allow(allow));
+            }
+            let spec = RespSpec { v11: sl % 2 == 0, code: 200, ops };
+            rec.nontrivial_op();
+            resp_case(rec, rng, &spec, sl <= 300);
+        }
+    }
     rec.case("exhaustive");
     let mut stream_specs: Vec<RespSpec> = vec![];
     for v11 in [false, true] {
